@@ -18,7 +18,7 @@ func init() {
 	register(&Rule{ID: "C06.MERGE", Min: 3, Doc: "merging object types never yields an object less open than either operand", Run: runC06Merge})
 	register(&Rule{ID: "C10.AT", Min: 1, Doc: "a remembered project is reused only for a path whose own lookup finds the same root", Run: runC10At})
 	register(&Rule{ID: "C10.CACHEKEY", Min: 4, Doc: "per-repository caches are keyed by the root directory as is", Run: runC10CacheKey})
-	register(&Rule{ID: "C16.ONCE", Min: 3, Doc: "a format template is executed once per run over the diagnostics of all files", Run: runC16Once})
+	register(&Rule{ID: "C16.ONCE", Min: 4, Doc: "a format template is executed once per run over the diagnostics of all files", Run: runC16Once})
 	register(&Rule{ID: "C17.STATELESS", Min: 7, Doc: "every non-empty filter value is validated, by the validator of its filter kind, whatever was validated before", Run: runC17Stateless})
 	register(&Rule{ID: "C18.ORDER", Min: 2, Doc: "search and reconstruction iterate the neighbours of a node in the same (stored) order", Run: runC18Order})
 	register(&Rule{ID: "C15.CONFPAT", Min: 1, Doc: "every ignore pattern of the configuration file is compiled on its own", Run: runC15ConfPat})
@@ -736,40 +736,206 @@ func runC16Once(c *Ctx) {
 	if lf := p.Method("Linter", "LintFiles"); lf != nil {
 		for _, call := range findCalls(lf, "(*ErrorFormatter).Print") {
 			arg := call.Common().Args[2]
-			collected := false
-			seen := map[ssa.Value]bool{}
-			var walk func(v ssa.Value, d int)
-			walk = func(v ssa.Value, d int) {
-				if d > 6 || seen[v] {
-					return
-				}
-				seen[v] = true
-				switch x := v.(type) {
-				case *ssa.Phi:
-					if blockInCycle(x.Block()) {
-						collected = true
-					}
-					for _, e := range x.Edges {
-						walk(e, d+1)
-					}
-				case *ssa.Call:
-					if bi, ok := x.Call.Value.(*ssa.Builtin); ok && bi.Name() == "append" {
-						walk(x.Call.Args[0], d+1)
-					}
-				}
-			}
-			walk(arg, 0)
 			n++
-			if collected {
-				c.ok("(*Linter).LintFiles|all files in one document", call.Pos(), "the fields of all files are appended to one slice which is printed once")
+			if why := accumulatedOverFiles(p, arg, call.Block(), 0); why == "" {
+				c.ok("(*Linter).LintFiles|all files in one document", call.Pos(), "the slice printed is carried round the loop over the per-file records, only ever extended by append with values of the current record, and that loop has no early exit")
 			} else {
-				c.bad("(*Linter).LintFiles|all files in one document", call.Pos(), "what is printed is not accumulated over the files")
+				c.bad("(*Linter).LintFiles|all files in one document", call.Pos(), why)
 			}
 		}
 	}
 	if n < 3 {
 		c.undecided("Linter|formatter calls", token.NoPos, fmt.Sprintf("only %d formatter calls found", n))
 	}
+}
+
+// accumulatedOverFiles: v (used in block use) is a slice accumulated over ALL per-file records: the phi of a loop header
+// whose back-edge values are reached from the phi itself through append steps only (on every path round the loop, inner
+// loops included - never re-made inside), every appended value derives from the record the loop is at (an element, at the
+// loop's own counter, of a slice of structs that hold a []*Error), and no edge leaves the loop except from its header.
+// Returns "" or what is wrong.
+func accumulatedOverFiles(p *Prog, v ssa.Value, use *ssa.BasicBlock, depth int) string {
+	const notAcc = "what is printed is not a slice accumulated by a loop over the files"
+	if depth > 3 {
+		return notAcc
+	}
+	switch x := v.(type) {
+	case *ssa.Call:
+		// built by a helper: what the helper returns
+		g := staticCallee(&x.Call)
+		if g == nil || !inModule(g) || g.Blocks == nil || g.Signature.Results().Len() != 1 {
+			return notAcc
+		}
+		for _, b := range g.Blocks {
+			if ret, ok := b.Instrs[len(b.Instrs)-1].(*ssa.Return); ok {
+				if why := accumulatedOverFiles(p, ret.Results[0], b, depth+1); why != "" {
+					return why
+				}
+			}
+		}
+		return ""
+	case *ssa.Phi:
+		isHeader := false
+		for _, h := range loopHeaders(x.Parent()) {
+			if h == x.Block() {
+				isHeader = true
+			}
+		}
+		if !isHeader {
+			for _, e := range x.Edges {
+				if why := accumulatedOverFiles(p, e, x.Block(), depth+1); why != "" {
+					return why
+				}
+			}
+			return ""
+		}
+		head := x.Block()
+		body := naturalLoop(head)
+		if body[use] && use != head {
+			return "the format template is handed a slice that is still being filled (inside the loop over the files)"
+		}
+		var appends []*ssa.Call
+		state := map[ssa.Value]int{} // 1 in progress / true, 2 false
+		var carries func(w ssa.Value) bool
+		carries = func(w ssa.Value) bool {
+			if w == ssa.Value(x) || state[w] == 1 {
+				return true
+			}
+			if state[w] == 2 {
+				return false
+			}
+			state[w] = 1
+			ok := false
+			switch y := w.(type) {
+			case *ssa.Phi:
+				ok = body[y.Block()]
+				for _, e := range y.Edges {
+					if !carries(e) {
+						ok = false
+					}
+				}
+			case *ssa.Call:
+				if bi, isB := y.Call.Value.(*ssa.Builtin); isB && bi.Name() == "append" {
+					appends = append(appends, y)
+					ok = carries(y.Call.Args[0])
+				}
+			}
+			if !ok {
+				state[w] = 2
+			}
+			return ok
+		}
+		back := 0
+		for i, e := range x.Edges {
+			if !body[head.Preds[i]] {
+				continue
+			}
+			back++
+			if !carries(e) {
+				return "the slice handed to the format template is made anew inside the loop over the files (" + symName(e) + " does not extend what the earlier files gave): only the last file reaches the template"
+			}
+		}
+		if back == 0 || len(appends) == 0 {
+			return notAcc
+		}
+		// the loop runs over the per-file records and what is appended comes from the record it is at
+		perFile := func(w ssa.Value) bool {
+			ia, ok := w.(*ssa.IndexAddr)
+			if !ok {
+				return false
+			}
+			ix, ok := ia.Index.(ssa.Instruction)
+			if !ok || ix.Block() != head {
+				return false
+			}
+			var elem types.Type
+			switch t := ia.X.Type().Underlying().(type) {
+			case *types.Slice:
+				elem = t.Elem()
+			case *types.Pointer:
+				if arr, ok := t.Elem().Underlying().(*types.Array); ok {
+					elem = arr.Elem()
+				}
+			}
+			if elem == nil {
+				return false
+			}
+			if pt, ok := elem.Underlying().(*types.Pointer); ok {
+				elem = pt.Elem()
+			}
+			st, ok := elem.Underlying().(*types.Struct)
+			if !ok {
+				return false
+			}
+			for i := 0; i < st.NumFields(); i++ {
+				if typeStr(st.Field(i).Type()) == "[]*Error" {
+					return true
+				}
+			}
+			return false
+		}
+		for _, app := range appends {
+			if !body[app.Block()] {
+				continue
+			}
+			if !backReaches(app.Call.Args[1], perFile) {
+				return "the loop that fills the slice handed to the format template is not the loop over the per-file records, or what it appends (" + p.Pos(app.Pos()) + ") does not come from the record it is at: not every file reaches the template"
+			}
+		}
+		for b := range body {
+			for _, s := range b.Succs {
+				if !body[s] && b != head {
+					return "the loop over the files that fills the slice handed to the format template is left early: the files after that point do not reach the template"
+				}
+			}
+		}
+		return ""
+	}
+	return notAcc
+}
+
+// backReaches: some value that v is computed from (operands, the stores into the locals and argument arrays it reads)
+// satisfies hit.
+func backReaches(v ssa.Value, hit func(ssa.Value) bool) bool {
+	seen := map[ssa.Value]bool{}
+	var walk func(w ssa.Value, d int) bool
+	walk = func(w ssa.Value, d int) bool {
+		if w == nil || seen[w] || d > 30 || len(seen) > 500 {
+			return false
+		}
+		seen[w] = true
+		if hit(w) {
+			return true
+		}
+		if al, ok := w.(*ssa.Alloc); ok {
+			for _, ref := range *al.Referrers() {
+				switch r := ref.(type) {
+				case *ssa.Store:
+					if r.Addr == ssa.Value(al) && walk(r.Val, d+1) {
+						return true
+					}
+				case *ssa.IndexAddr, *ssa.FieldAddr:
+					for _, r2 := range *r.(ssa.Value).Referrers() {
+						if st, ok := r2.(*ssa.Store); ok && st.Addr == r.(ssa.Value) && walk(st.Val, d+1) {
+							return true
+						}
+					}
+				}
+			}
+			return false
+		}
+		in, ok := w.(ssa.Instruction)
+		if !ok {
+			return false
+		}
+		for _, op := range in.Operands(nil) {
+			if *op != nil && walk(*op, d+1) {
+				return true
+			}
+		}
+		return false
+	}
+	return walk(v, 0)
 }
 
 // ---- C17.STATELESS ----
